@@ -330,7 +330,7 @@ func settleGoroutines() (int, string) {
 func runC13(cfg runCfg) error {
 	r := rand.New(rand.NewSource(cfg.seed))
 	sum := &summary{Property: "C13", Seed: cfg.seed, Features: map[string]int{}, CaseInputs: map[string]interface{}{},
-		Rule: "random federated query x request limit drawn from 0..6 and 50 x optional fault x optional client cancellation at a random gate, under the gating transport; per case: the request terminates, at most one root request per service, lookup rounds sent <= limit, a response that reports 'exceeded max requests' carries no data, and after the response no goroutine with a bramble frame remains; one release order per case is emitted for the model correspondence; non-trivial = at least one lookup round"}
+		Rule: "random federated query (and, at limit 50, wide plans of 12-20 sibling lookups each with a lookup below it) x request limit drawn from 0..6 and 50 x optional fault x optional client cancellation at a random gate, under the gating transport; per case: the request terminates, at most one root request per service, lookup rounds sent <= limit, a response that reports 'exceeded max requests' carries no data, and after the response no goroutine with a bramble frame remains; one release order per case is emitted for the model correspondence; non-trivial = at least one lookup round"}
 	w := &caseWriter{dir: cfg.out, shard: 40, check: "check_e2e_case", imports: e2eImports}
 	limits := []int64{0, 1, 2, 3, 4, 6, 50}
 	envs := map[int64]*e2eEnv{}
@@ -360,6 +360,20 @@ func runC13(cfg runCfg) error {
 			vars = map[string]interface{}{}
 			doc, _ = loadQuery(env.gw.es.MergedSchema, q)
 			sum.Features["batched_round"]++
+		}
+		if !big && lim == 50 && r.Intn(2) == 0 {
+			// a wide plan: 12-20 sibling lookups, each with a lookup of its own below it (A -> B -> A), all within the limit
+			env.world.data = genData(r, env.fed, dataOpts{nullProb: 0, safeStrings: true})
+			n := 12 + r.Intn(9)
+			var sb strings.Builder
+			sb.WriteString("query Op {")
+			for k := 0; k < n; k++ {
+				sb.WriteString(fmt.Sprintf(" m%d: movie(id: \"%d\") { lead { nick } }", k, 1+k%3))
+			}
+			sb.WriteString(" }")
+			q, vars = sb.String(), map[string]interface{}{}
+			doc, _ = loadQuery(env.gw.es.MergedSchema, q)
+			sum.Features["wide_nested_plan"]++
 		}
 		if doc == nil {
 			continue
